@@ -273,7 +273,7 @@ def _replay_file(check: Check, path: Path) -> tuple:
 
 
 def _write_replay(prop: str, fam: str, case: Any, message: str, kind: str) -> Path:
-    outdir = ROOT / "replays" / "out" / prop
+    outdir = Path(os.environ.get("VERIF_OUT_DIR", ROOT / "replays" / "out")) / prop
     outdir.mkdir(parents=True, exist_ok=True)
     path = outdir / f"{digest(case)[:16]}.json"
     path.write_text(
@@ -478,7 +478,7 @@ def _write_evidence(check: Check, tier: str, seed: int, total: Stats, t0: float,
     }
     if total.exhaustive:
         ev["coverage"]["exhaustive_subdomains"] = total.exhaustive
-    d = ROOT / "evidence"
+    d = Path(os.environ.get("VERIF_EVIDENCE_DIR", ROOT / "evidence"))
     d.mkdir(exist_ok=True)
     (d / f"{check.prop}.json").write_text(json.dumps(ev, indent=1, default=str) + "\n")
 
